@@ -83,6 +83,18 @@ CHECKS = {
         text="Bounded-exhaustive exploration (class E): all 6 240 (thorough 24 960) project shapes - definition kind, duplicate definitions, nested class, re-export form, origin __all__, local definition of the exported name, consumer form, import cycle, zope interfaces, field-documented attribute - are built by the real builder and the final model satisfies I1..I8 (registry key = qualified name, entry of its parent or superseded, reachable from a root, kind fits place, linearisation starts with the class and holds each resolved base once, subclasses inverse of bases, implementedby inverse of implements, page file names distinct). Not stronger than enumeration of the template space.",
         note="Trusted: CrossHair's exhaustion verdict over the choice variables; lib/templates.py as the project generator; invariants as my reading of the statement.",
     ),
+    "C06": dict(
+        level="exploration", design="DESIGN.md §3 C06",
+        technique="CrossHair (z3) enumerates project shapes x processing schedules (symbolic permutation index of System.unprocessed_modules) and certifies exhaustion; the real System.process() runs under each schedule and canonical dumps are compared",
+        text="Bounded-exhaustive exploration with the schedule as a variable: for every template shape with a consumer module and every reachable processing order (package module first, sub-modules in any order; <= 6 orders), the canonical dump (type, kind, docstring, bases, resolved bases, linearisation per object) equals the dump under the default order; cyclic shapes are compared on the class hierarchy only. Two recorded findings are excused by key and replayed each run.",
+        note="Trusted: CrossHair's exhaustion verdict over the choice variables; lib/templates.py; the schedule is imposed by permuting the unprocessed list.",
+    ),
+    "C07": dict(
+        level="exploration", design="DESIGN.md §3 C07",
+        technique="CrossHair (z3) enumerates re-export shapes x consumer forms x schedules and certifies exhaustion; the real builder runs on each and the re-export contract is evaluated on the resulting model",
+        text="Bounded-exhaustive exploration: for every re-export form (package plain/renamed/star, sibling plain) x origin __all__ x local definition x kind x nested x consumer form x every schedule: when the documented condition holds the object and all members are registered only under exporter.newname, the origin resolves the old name, find_object(old) is find_object(new) is the object, the consumer's name / base class lead to it, the url is the exporter's; otherwise the object stays where defined. One recorded finding (consumer naming the defining module) is excused by key and replayed each run.",
+        note="Trusted: CrossHair's exhaustion verdict over the choice variables; lib/templates.py.",
+    ),
 }
 
 NOT_APPLICABLE = {
